@@ -20,6 +20,12 @@ fn gen(seed: u64, idx: u64, _tier: Tier) -> Plan {
     s.batch_size = *rng.pick(&[1i64, 2, 7, 16, 63, 64, 64]);
     s.log_level = Some(0);
     world_knobs(&mut rng, &mut plan, false);
+    if rng.chance(1, 4) {
+        // transient send_to / recv_from errors: what the worker does right after one must not
+        // change what the next request gets
+        plan.world.faults.send_err = *rng.pick(&[30u32, 100]);
+        plan.world.faults.recv_err = *rng.pick(&[0u32, 30]);
+    }
     let sockets = 1 + rng.below(24) as u32;
     let mut t = 6000;
     if idx % 4 == 3 {
